@@ -81,3 +81,36 @@ def seed() -> int:
         return int(os.environ.get("VERIF_SEED", "0"))
     except ValueError:
         return 0
+
+
+# ------------------------------------------------------------------ resource budgets (a hanging client must end the case, not the check)
+import contextlib, resource, signal
+
+
+class CpuBudget(BaseException):
+    """raised inside the running code when the CPU-time budget of one case is used up"""
+
+
+def _on_vtalrm(*a):
+    raise CpuBudget()
+
+
+@contextlib.contextmanager
+def cpu_budget(seconds: float, mem_bytes: int = 6 << 30):
+    """process CPU time (ITIMER_VIRTUAL, not wall time) and address-space budget for the enclosed code"""
+    old = signal.signal(signal.SIGVTALRM, _on_vtalrm)
+    soft, hard = resource.getrlimit(resource.RLIMIT_AS)
+    try:
+        resource.setrlimit(resource.RLIMIT_AS, (mem_bytes if hard == resource.RLIM_INFINITY else min(mem_bytes, hard), hard))
+    except (ValueError, OSError):
+        pass
+    signal.setitimer(signal.ITIMER_VIRTUAL, seconds)
+    try:
+        yield
+    finally:
+        signal.setitimer(signal.ITIMER_VIRTUAL, 0)
+        signal.signal(signal.SIGVTALRM, old)
+        try:
+            resource.setrlimit(resource.RLIMIT_AS, (soft, hard))
+        except (ValueError, OSError):
+            pass
